@@ -1,10 +1,16 @@
 from common import *
+import re
 
 CONFIG = {
     'props_file': 'Props/C17.v',
     'rule': 'contains cases: (1) every content of length<=6 (quick) / <=8 (thorough) over bytes {00,61,62} x every needle '
             'of length 1..2 (quick) / 1..3 (thorough); (2) random contents up to 14*L bytes with the longest needle planted '
-            'around multiples of the half window (2L) +-L, 1-3 needles incl. empty ones. '
+            'around multiples of the half window (2L) +-L, 1-3 needles incl. empty ones; (5) the same through readers that '
+            'split the bytes as io.Reader permits (fifth token = chunking oracle, entry k = at most c bytes in the k-th Read, c=0: '
+            '(0,nil), "e": io.EOF together with the last bytes): 5 contents x every oracle of <=3 (quick) / <=4 (thorough) entries '
+            'over c in 0..5 x {e,-}; random contents with oracles of 1-byte reads, halflen-1 / halflen / halflen+1 / whole-buffer '
+            'reads, (0,nil) reads and mixtures; files of 1000..8200 bytes read 1, 7, 511, 512, 4096, halflen+-1 bytes at a time; '
+            'for these the number of Read calls and the bytes left unread are compared with the chunked model too (<id>#t). '
             'wfile/wreader/swreader cases (WriteFile / WriteReader / SafeWriteReader, then ReadFile, then a snapshot of every '
             'MemMapFs layer): (1) grid stacks {mem, bp:/d(mem), cow(mem,mem), cache:0(mem,mem)} x payload sizes '
             '{0,1,511,512,513,4096,40000,70000} x {parent directory present, two missing parent directories, the path pre-exists '
@@ -15,13 +21,17 @@ CONFIG = {
             'and leaves the deep snapshot (bytes, modes, mtimes in ns, child index) unchanged. '
             'distinct = hash of the case line without its id; non-trivial = contains: content non-empty and at least one non-empty '
             'needle; w*: payload non-empty',
-    'trusted_base': ['io.ReadAtLeast, bytes.Contains modelled from their documentation (Go standard library)',
+    'trusted_base': ['bytes.Contains modelled from its documentation; io.ReadAtLeast transcribed from src/io/io.go (Model/SearchChunked.v) '
+                     'over a reader = content + chunking oracle (io.Reader contract: 0 <= n <= len(p), io.EOF with or after the last bytes)',
                      'bytes.Buffer.ReadFrom (request = free capacity when >= MinRead, else grow to max(len+512, 2*cap); the allocator\'s '
                      'rounding of a grown capacity is not modelled: unreachable when Stat reports the true size), io.Copy (32 KiB buffer, '
                      'one Write per non-empty Read) modelled from the Go 1.23 sources; filepath.Split from Lib/Path.v',
                      'the wrappers (BasePathFs, CopyOnWriteFs, CacheOnReadFs) are covered by the correspondence runs only: the '
                      'round-trip theorems are about MemMapFs'],
-    'assumptions': ['the reader handed to readerContainsAny is a file positioned at 0 whose Read returns min(len(buf), remaining) bytes',
+    'assumptions': ['C17_contains_exact: the reader handed to readerContainsAny is a file positioned at 0 whose Read returns min(len(buf), remaining) '
+                    'bytes; C17_contains_exact_chunked: ANY reader of the content (every split into Read calls, finitely many (0,nil) reads, '
+                    'io.EOF with or after the last bytes); excluded: Read errors other than io.EOF, a reader answering (0,nil) for ever; '
+                    'fuel = len(content) + len(oracle) + 2, proved sufficient (the theorem states Some)',
                     'C17_write_read: p is a regular file, or absent with its parent directory present (sane_for); '
                     'C17_write_reader: the path map points into the heap, "/" exists, the last element of p is a proper name',
                     'the io.Reader given to WriteReader/SafeWriteReader is a plain reader (no WriterTo) that ends with (0, io.EOF)',
@@ -44,16 +54,22 @@ def spec_signature(key, impl, spec, lines):
         return 'contains:' + ('false-positive' if impl == 'true' else 'false-negative')
     return t[0]
 
-COQ_HEADER = '''From AF Require Import Lib.Bytes Lib.Path Lib.Ops Gen.Consts Model.Search Model.MemFile Model.MemFs Model.Stack Model.IOUtil Model.Cases1718.
+COQ_HEADER = '''From AF Require Import Lib.Bytes Lib.Path Lib.Ops Gen.Consts Model.Search Model.SearchChunked Model.MemFile Model.MemFs Model.Stack Model.IOUtil Model.Cases1718.
 Inductive vmcase :=
 | VContains (i : N) (content : bytes) (nd : list bytes) (expect : bool)
+| VContainsC (i : N) (content : bytes) (calls : list rcall) (nd : list bytes) (expect : bool) (reads unread : nat)
 | VIO (i : N) (kind : nat) (k : stack) (setup : list io_setup) (p : str) (data : bytes) (lens : list nat) (perm : Z) (d : N).
 Definition vm_ok (c : vmcase) : bool :=
   match c with
   | VContains _ content nd expect => Bool.eqb (reader_contains_any content nd) expect
+  | VContainsC _ content calls nd expect reads unread =>
+      match reader_contains_any_chunked_tr content calls nd with
+      | Some (b, rd, lf) => Bool.eqb b expect && Nat.eqb rd reads && Nat.eqb lf unread
+      | None => false
+      end
   | VIO _ kind k setup p data lens perm d => N.eqb (io_case_digest kind k setup p data lens perm) d
   end.
-Definition vm_id (c : vmcase) : N := match c with VContains i _ _ _ | VIO i _ _ _ _ _ _ _ _ => i end.
+Definition vm_id (c : vmcase) : N := match c with VContains i _ _ _ | VContainsC i _ _ _ _ _ _ | VIO i _ _ _ _ _ _ _ _ => i end.
 '''
 _ids = {}
 
@@ -92,6 +108,13 @@ def coq_setup(s):
 
 def coq_case(cid, lines, r):
     t = lines[0].split(' ')
+    if t[0] == 'contains' and len(t) > 4 and cid in r['M'] and cid + '#t' in r['M']:
+        i = _ids.setdefault(cid, len(_ids))
+        m = re.fullmatch(r'reads=(\d+) left=(\d+)', r['M'][cid + '#t'])
+        calls = [] if t[4] == '-' else ['(N.to_nat %d, %s)' % (int(x.rstrip('e')), 'true' if x.endswith('e') else 'false') for x in t[4].split(',')]
+        return 'VContainsC %d%%N %s %s %s %s (N.to_nat %s) (N.to_nat %s)' % (i, coq_bytes(t[2]), coq_list(calls),
+                                                          coq_list([coq_bytes(n) for n in t[3].split(',')]), coq_bool(r['M'][cid]),
+                                                          m.group(1), m.group(2))
     if t[0] == 'contains' and cid in r['M']:
         i = _ids.setdefault(cid, len(_ids))
         return 'VContains %d%%N %s %s %s' % (i, coq_bytes(t[2]), coq_list([coq_bytes(n) for n in t[3].split(',')]), coq_bool(r['M'][cid]))
